@@ -221,6 +221,15 @@ def run(prop, tier, seed):
                 if key not in sched_done:
                     sched_done[key] = run_dynamic("schedule", {"files": files, "max_hits": 300 if tier == "quick" else 1500,
                                                                "time_budget": 60 if tier == "quick" else 300})
+                if not sched_done[key].get("confirmed"):
+                    # nothing on warm caches: try schedules that start cold (lazy initialisation races)
+                    if "cold" not in sched_done:
+                        sched_done["cold"] = run_dynamic("schedule_cold", {"max_hits": 200 if tier == "quick" else 800,
+                                                                           "time_budget": 60 if tier == "quick" else 300})
+                    if sched_done["cold"].get("confirmed"):
+                        sched_done[key] = sched_done["cold"]
+                    else:
+                        sched_done[key] = dict(sched_done[key], cold=sched_done["cold"])
                 rec["native"] = sched_done[key]
                 confirmed = bool(sched_done[key].get("confirmed"))
             elif "slot-index-determines-the-key" in f.name or f.name.startswith("cache/"):
